@@ -668,6 +668,42 @@ func crossNormIn(v ssa.Value, root *ssa.Function) ssa.Value {
 	return v
 }
 
+// successResult: x is result #i of a call of a module function that also returns an error: what the
+// function returns at that position on its one return that reports no error (nil otherwise).
+func successResult(x *ssa.Extract) ssa.Value {
+	call, ok := x.Tuple.(*ssa.Call)
+	if !ok {
+		return nil
+	}
+	g := call.Call.StaticCallee()
+	if g == nil || !inModule(g) || len(g.Blocks) == 0 {
+		return nil
+	}
+	var found ssa.Value
+	n := 0
+	for _, b := range g.Blocks {
+		ret, ok := b.Instrs[len(b.Instrs)-1].(*ssa.Return)
+		if !ok || x.Index >= len(ret.Results) {
+			continue
+		}
+		failing := false
+		for i, rv := range ret.Results {
+			if i != x.Index && isErrorType(rv.Type()) && !isNilConst(rv) {
+				failing = true
+			}
+		}
+		if failing {
+			continue
+		}
+		n++
+		found = ret.Results[x.Index]
+	}
+	if n != 1 {
+		return nil
+	}
+	return found
+}
+
 // crossReaches: following v across single-use helpers (as crossNorm does, one step at a time) meets target.
 func crossReaches(v, target ssa.Value) bool {
 	for i := 0; i < 8 && v != nil; i++ {
@@ -680,6 +716,8 @@ func crossReaches(v, target ssa.Value) bool {
 			next = singleSiteArg(x)
 		case *ssa.UnOp:
 			next = cellValue(x)
+		case *ssa.Extract:
+			next = successResult(x)
 		}
 		if next == nil {
 			return false
